@@ -139,7 +139,7 @@ func (p *ExprParser) parseNestedExpr() ExprNode {
 
 func (p *ExprParser) parseInt() ExprNode {
 	t := p.peek()
-	i, err := strconv.ParseInt(t.Value, 0, 32)
+	i, err := strconv.ParseInt(t.Value, 0, 64)
 	if err != nil {
 		p.errorf("parsing invalid integer literal %q: %s", t.Value, err)
 		return nil
